@@ -648,20 +648,20 @@ pub fn collect_protocol_fees(deps: DepsMut) -> Result<Response, ContractError> {
 
     // get the collected protocol fees so far
     let protocol_fees = COLLECTED_PROTOCOL_FEES.load(deps.storage)?;
-    // reset the collected protocol fees
-    COLLECTED_PROTOCOL_FEES.save(
-        deps.storage,
-        &vec![
-            Asset {
-                info: protocol_fees[0].clone().info,
-                amount: Uint128::zero(),
+    // reset the collected protocol fees that are sent below. Amounts that are not above the minimum
+    // collectable balance are not sent, so they stay on the ledger
+    let remaining_protocol_fees: Vec<Asset> = protocol_fees
+        .iter()
+        .map(|protocol_fee| Asset {
+            info: protocol_fee.info.clone(),
+            amount: if protocol_fee.amount > MINIMUM_COLLECTABLE_BALANCE {
+                Uint128::zero()
+            } else {
+                protocol_fee.amount
             },
-            Asset {
-                info: protocol_fees[1].clone().info,
-                amount: Uint128::zero(),
-            },
-        ],
-    )?;
+        })
+        .collect();
+    COLLECTED_PROTOCOL_FEES.save(deps.storage, &remaining_protocol_fees)?;
 
     let mut messages: Vec<CosmosMsg> = Vec::new();
     for protocol_fee in protocol_fees {
